@@ -45,7 +45,12 @@ def small_family(ctx, tag, max_eqs, sample, rich):
 def run_fns(ctx, fns, princ=None, tag=""):
     sd = ctx.spec_dir()
     if princ is None:
-        core.write_ndjson(os.path.join(sd, "inf_fns.ndjson"), [f.spec() for f in fns])
+        specs = [f.spec() for f in fns]
+        for sp in specs:
+            if "eqs" not in sp:            # abstract syntax only: no second entry
+                sp["eqs"], sp["params"], sp["res"] = [], [], ["unit"]
+                sp["single"] = True
+        core.write_ndjson(os.path.join(sd, "inf_fns.ndjson"), specs)
         ctx.tlc("FoInferCases", "FoInferCases.cfg", workers=1, timeout=3000, heap_gb=6)
         princ = core.read_ndjson(os.path.join(sd, "inf_principal.ndjson"))
         if len(princ) != len(fns):
@@ -165,9 +170,9 @@ def resolver_traces(ctx, logs, tag):
     total, bad, skipped = restrace.validate(ctx, tag)
     if total != n:
         raise Infra("resolver trace length mismatch")
-    st = ctx.extra.setdefault("resolver_rounds", {"validated": 0, "skipped_field_access": 0, "processes": 0})
-    st["validated"] += n - len(logs) - skipped
-    st["skipped_field_access"] += skipped
+    st = ctx.extra.setdefault("resolver_rounds", {"validated": 0, "of_which_with_field_access_types": 0, "processes": 0})
+    st["validated"] += n - len(logs)
+    st["of_which_with_field_access_types"] += skipped
     st["processes"] += len(logs)
     if bad:
         trace = core.read_ndjson(os.path.join(ctx.spec_dir(), "res_trace%s.ndjson" % tag))
@@ -234,25 +239,38 @@ def resolver_model(ctx):
     """spec/FoResolver.tla (the resolver as implemented: batches per statement, rounds, classes) against the declarative unifier on
     every order of every small constraint system; the deviations must be refuted (non-vacuity)"""
     thorough = ctx.tier == "thorough"
-    def cfg(name, max_eqs, orders, sets, merge, dev, live):
-        slicecheck.write_cfg(ctx, name, "CONSTANTS\n  MaxEqs = %d\n  AllOrders = %s\n  WithSets = %s\n  MergeLen = %d\n  Deviations = %s\nSPECIFICATION Spec\n"
+    def cfg(name, max_eqs, orders, sets, merge, dev, live, fld=0):
+        slicecheck.write_cfg(ctx, name, "CONSTANTS\n  MaxEqs = %d\n  AllOrders = %s\n  WithSets = %s\n  MergeLen = %d\n  FldEqs = %d\n  Deviations = %s\n  RecField <- MCRecField\nSPECIFICATION Spec\n"
                              "INVARIANTS Agrees RoundsBounded\n%sCHECK_DEADLOCK FALSE\n" % (
-                                 max_eqs, "TRUE" if orders else "FALSE", "TRUE" if sets else "FALSE", merge, dev, "PROPERTIES Terminates\n" if live else ""))
+                                 max_eqs, "TRUE" if orders else "FALSE", "TRUE" if sets else "FALSE", merge, fld, dev, "PROPERTIES Terminates\n" if live else ""))
         return name
     if thorough:
-        r = ctx.tlc("FoResolverMC", cfg("FoResolverMC_run.cfg", 2, True, True, 4, "{}", True), workers=core.NCPU, timeout=3000, heap_gb=12)
+        r = ctx.tlc("FoResolverMC", cfg("FoResolverMC_run.cfg", 2, True, True, 4, "{}", True, fld=2), workers=core.NCPU, timeout=3000, heap_gb=12)
         ctx.extra["resolver_model_states"] = r["distinct"]
         r = ctx.tlc("FoResolverMC", cfg("FoResolverMC_3.cfg", 3, False, False, 0, "{}", False), workers=core.NCPU, timeout=3000, heap_gb=12)
         ctx.extra["resolver_model_states_3eq"] = r["distinct"]
+        r = ctx.tlc("FoResolverMC", cfg("FoResolverMC_f.cfg", 0, False, False, 0, "{}", False, fld=4), workers=core.NCPU, timeout=3000, heap_gb=12)
+        ctx.extra["resolver_model_states_field_family_4"] = r["distinct"]
     else:
-        r = ctx.tlc("FoResolverMC", cfg("FoResolverMC_run.cfg", 1, True, True, 2, "{}", True), workers=core.NCPU, timeout=3000, heap_gb=12)
-        r2 = ctx.tlc("FoResolverMC", cfg("FoResolverMC_2.cfg", 2, False, False, 0, "{}", False), workers=core.NCPU, timeout=3000, heap_gb=12)
+        r = ctx.tlc("FoResolverMC", cfg("FoResolverMC_run.cfg", 1, True, True, 2, "{}", True, fld=2), workers=core.NCPU, timeout=3000, heap_gb=12)
+        r2 = ctx.tlc("FoResolverMC", cfg("FoResolverMC_2.cfg", 2, False, False, 0, "{}", False, fld=3), workers=core.NCPU, timeout=3000, heap_gb=12)
         ctx.extra["resolver_model_states"] = r["distinct"] + r2["distinct"]
-    for dev, inv, me, ml in (("RegisterPairOnly", "Agrees", 0, 3), ("DropUpdateRels", "Agrees", 2, 0), ("AdoptVar", "RoundsBounded", 1, 0)):
-        r = ctx.tlc("FoResolverMC", cfg("FoResolverMC_dev.cfg", me, False, True, ml, '{"%s"}' % dev, False), workers=core.NCPU, timeout=1800, heap_gb=8, allow_fail=True)
+    # (me, ml, fld): the smallest family that refutes the deviation
+    for dev, inv, me, ml, fld in (("RegisterPairOnly", "Agrees", 0, 3, 0), ("DropUpdateRels", "Agrees", 2, 0, 0), ("AdoptVar", "RoundsBounded", 1, 0, 0),
+                                  ("SinglePass", "Agrees", 0, 0, 3), ("FaAnyField", "Agrees", 0, 0, 3), ("OldCycleRule", "Agrees", 0, 0, 2), ("FaKeepsClass", "Agrees", 0, 0, 3)):
+        if not thorough and dev in ("DropUpdateRels", "SinglePass", "FaAnyField", "FaKeepsClass"):
+            continue          # (quick: three of the seven deviations)
+        r = ctx.tlc("FoResolverMC", cfg("FoResolverMC_dev.cfg", me, False, ml > 0 or me > 0, ml, '{"%s"}' % dev, False, fld=fld), workers=core.NCPU, timeout=1800, heap_gb=8, allow_fail=True)
         if ("Invariant %s is violated" % inv) not in r["out"]:
             raise Infra("deviation %s of FoResolver is not refuted (the model check is vacuous): %s" % (dev, r["out"][-400:]))
-    ctx.note("FoResolver deviations RegisterPairOnly, DropUpdateRels (Agrees) and AdoptVar (RoundsBounded) are refuted by TLC")
+    # the known finding is a behaviour of the model too (4 statements of the field family): TLC finds Agrees violated from that system
+    slicecheck.write_cfg(ctx, "FoResolverMC_finding.cfg", "CONSTANTS\n  MaxEqs = 0\n  AllOrders = FALSE\n  WithSets = FALSE\n  MergeLen = 0\n  FldEqs = 0\n  Deviations = {}\n"
+                         "  RecField <- MCRecField\nSPECIFICATION FindingSpec\nINVARIANTS Agrees\nCHECK_DEADLOCK FALSE\n")
+    r = ctx.tlc("FoResolverMC", "FoResolverMC_finding.cfg", workers=1, timeout=600, allow_fail=True)
+    if "Invariant Agrees is violated" not in r["out"]:
+        if ctx.is_known("fa-class-drops-concrete"):
+            raise Infra("the model no longer exhibits the known finding fa-class-drops-concrete: " + r["out"][-300:])
+    ctx.note("FoResolver deviations %s are refuted by TLC" % ("RegisterPairOnly, DropUpdateRels, SinglePass, FaAnyField, OldCycleRule, FaKeepsClass (Agrees) and AdoptVar (RoundsBounded)" if thorough else "RegisterPairOnly, OldCycleRule (Agrees) and AdoptVar (RoundsBounded); the other four in the thorough tier"))
 
 
 def run(ctx):
@@ -275,6 +293,18 @@ def run(ctx):
     report(ctx, lines, bad, princ)
     ctx.extra["functions"] = len(fns)
     ctx.extra["ill_typed_by_the_rules_skipped"] = sum(1 for p in princ if not p["ok"])
+    # kernels: a variable that IS a field of a record still to be known (regression of defect 18; designated probe of the known finding)
+    kfns = infgen.kernels()
+    klines, kbad, kprinc = run_fns(ctx, kfns, tag="k")
+    k19 = [i + 1 for i, l in enumerate(klines) if l["name"] == "k19"]
+    k19bad = [b for b in kbad if b in k19]
+    if k19bad and ctx.is_known("fa-class-drops-concrete"):
+        l = klines[k19bad[0] - 1]
+        ctx.known_finding("fa-class-drops-concrete", "let k19 a b c = let l1 = [a.Val; c] / let l2 = [b; iwrap c] / let l3 = [b; imkint 1] / let l4 = [a; iwrap c]: "
+                          "c is int only through b's type argument; fc emits [%d type params] (%s) instead of (IBox[int], IBox[int], int)" % (l["ntparams"], ", ".join(l["gparams"])))
+        kbad = [b for b in kbad if b not in k19]
+    report(ctx, klines, kbad, kprinc)
+    lines = lines + klines
     # the small-scope exhaustive family: every sequence of <= 2 (3) equations x = t over three parameters
     fams = [("s", 2, 0, True), ("t", 3, 20, False)] if ctx.tier == "thorough" else [("s", 2, 12, True)]
     for tag, max_eqs, sample, rich in fams:
